@@ -6,7 +6,14 @@ T2: sequences of 0-6 messages of mixed classes written with m.dump(stream, SIZE_
     stream and on EVERY cut point of it.
 oracle: the property itself on the implementation (each load returns exactly parse(payload) and stops at the frame
     boundary; == the written message; a cut stream returns the same objects or raises, and keeps raising).
-T3: google.protobuf.proto.serialize_length_prefixed / parse_length_prefixed write and read the same streams."""
+T3: google.protobuf.proto.serialize_length_prefixed / parse_length_prefixed write and read the same streams.
+gap tie (the specification-side functions of the gap-closing theorems, Model/C10GapDefs.v, evaluated through Model/C10GapCv.v):
+    ref_frame / ref_frames on every generated stream (well-formed, every cut, fault streams, damaged streams) against
+    (a) google.protobuf's own reading of the same bytes (decoder._DecodeVarint + read(size), cross-checked with
+    proto.parse_length_prefixed on a field-less class) and (b) the stream positions betterproto's load left after every call;
+    whole_frames against the harness' frame count; c14u_value_ok / normu_obj against what load returned for messages carrying
+    unknown fields at any depth; plus the oracles C10_loads_past_end, C10_stream_fault_roundtrip, C10_loads_fault on the
+    implementation (see the section "gap tie" below)."""
 import dataclasses
 import io
 import json
@@ -16,8 +23,9 @@ import struct
 from .. import lib, msggen, wiregen
 from ..lib import cz, cb, cl, ce
 
-IMPORTS = "Model.Types Model.Object Model.Eq Model.Encode Model.Len Model.Decode Model.Canon Model.C10Stream gen.Tables"
-EXTRA_TARGETS = ["Model/Canon.vo", "Model/C10Stream.vo"]
+IMPORTS = ("Model.Types Model.Object Model.Eq Model.Encode Model.Len Model.Decode Model.Canon Model.C10Stream Model.C01Def Model.C10Rt "
+           "Model.C10GapDefs Model.C14UDef Model.C10GapCv gen.Tables")
+EXTRA_TARGETS = ["Model/Canon.vo", "Model/C10Stream.vo", "Model/C10GapCv.vo"]
 CORPUS = os.path.join(lib.VERIF, "corpus", "C10-regress.json")
 
 TRUSTED = [
@@ -30,6 +38,10 @@ TRUSTED = [
     "Python side: harness/msggen.py (schemas, values, snapshots through object.__getattribute__), harness/wiregen.py (fault injection)",
     "oracles: CPython 3.12 io.BytesIO; google.protobuf (upb) proto.serialize_length_prefixed / parse_length_prefixed for T3",
     "the position of a stream after an exception is outside the model (checked on the implementation only: every later load raises too)",
+    "gap tie: coq/Model/C10GapCv.v (observables of ref_frame / ref_frames / whole_frames / c14u_value_ok / normu_obj; no proofs); the reference "
+    "side is google.protobuf.internal.decoder._DecodeVarint + BytesIO.read(size) in the loop of proto.parse_length_prefixed, cross-checked against "
+    "proto.parse_length_prefixed itself on a field-less class; NOT tied (differs by definition, witness recorded in the notes of every run): a "
+    "ten-byte length prefix whose tenth byte is above 1 - google masks the value to 64 bits, betterproto / ref_frame keep the bits from 2**64 on",
 ]
 ASSUMPTIONS = [
     "a stream is the list of bytes not yet read; stream.read(n) returns fewer bytes only at EOF (io.BytesIO semantics)",
@@ -45,7 +57,9 @@ RULE = ("streams of 0-6 messages drawn from a systematic schema (every scalar ki
         "empty class) and random schemas, each extended with an OLDER variant of every class (subset of the fields); empties, unknown fields, "
         "nested messages forced into the mix; read back with the writer's classes, with the older classes, or with unrelated classes; "
         "every cut point of every stream up to a size budget (sampled cuts beyond it); plus frames with injected faults and wrong length prefixes; "
-        "plus the regression corpus (former defects F1, F2a, F2b). non-trivial = stream with at least one non-empty frame; "
+        "plus the regression corpus (former defects F1, F2a, F2b); plus, per stream, damaged copies (overwrite / insert / delete / garbage from a byte k on, "
+        "k near frame boundaries half of the time, random / all-zero / all-ones filling), one load more than there are messages, and messages with unknown "
+        "records forced into their NESTED messages (through parse or as raw state). non-trivial = stream with at least one non-empty frame; "
         "distinct = distinct (reader classes, stream bytes)")
 
 
@@ -183,7 +197,7 @@ def nat_list(ks):
     return "[" + "; ".join(f"{k}%nat" for k in ks) + "]"
 
 
-def check_case(ctx, bp, case, pairs, meta, exhaustive_budget, sampled_cuts):
+def check_case(ctx, bp, case, pairs, meta, exhaustive_budget, sampled_cuts, ndamage=2):
     """oracle on the implementation + the model expressions for one stream"""
     s, stream, readers = case.s, case.stream, case.readers
     rng = ctx.rng
@@ -203,6 +217,7 @@ def check_case(ctx, bp, case, pairs, meta, exhaustive_budget, sampled_cuts):
     ctx.cov["evaluations"] += 1
     if any(len(f) > 1 for f in case.frames):
         ctx.seen_nontrivial((tuple(readers), stream))
+    rt_flags = {}
     # oracle 1: frame-exact reads that return what parse returns on the payload alone
     for i, ci in enumerate(readers[:len(case.written)]):
         payload = case.written[i][2]
@@ -229,8 +244,11 @@ def check_case(ctx, bp, case, pairs, meta, exhaustive_budget, sampled_cuts):
                     if rt_ok and not (ev[3] == m and bytes(ev[3]) == payload):
                         ctx.fail("oracle", f"load #{i} returned a message that is not == the written one (or re-encodes differently)", input=case.describe())
                     ctx.count("eq_checked" if rt_ok else "eq_skipped_c01_roundtrip_not_eq")
+                    rt_flags[i] = bool(rt_ok)
                 except Exception as e:  # noqa
                     ctx.fail("oracle", f"comparing load #{i} with the written message raised {type(e).__name__}: {e}", input=case.describe())
+                # gap tie (3): the written message carries unknown fields, possibly inside nested messages
+                unknown_stage(ctx, bp, case, i, ev[3], ev[1], pairs, meta, rt_flags.get(i, False))
         else:
             if want_err is None:
                 ctx.fail("oracle", f"load #{i} raised {type(ev[1]).__name__}: {ev[1]} although the frame is complete and parse(payload) returns",
@@ -259,11 +277,20 @@ def check_case(ctx, bp, case, pairs, meta, exhaustive_budget, sampled_cuts):
                     ctx.fail("oracle", f"short-count stream (bursts at {bounds}): load #{i} returned a message different from the one the plain "
                              "stream gives at that position", input=case.describe(bursts=bounds))
                     break
-    model = (f"(CL [cv_bytes_res (dump_stream sc{case.si} [{'; '.join(w[3] for w in case.written)}]); "
-             f"CL (loads_trace sc{case.si} {nat_list(mi(c) for c in readers)} {lib.coq_bytes(stream)})])")
-    expected = f"(CL [{cb(stream)}; CL {trace_cv(events)}])"
+    # gap tie (1): the reference reader on the whole stream, against google's reading and betterproto's positions
+    gfr, gend = ref_pair(ctx, stream, events, "whole", case.describe())
+    ref_vs_load(ctx, s, readers, stream, events, gfr, gend, case.describe)
+    # gap tie (2): one load more than there are messages; faults other than a cut. The model side (loads_end, whole_frames,
+    # damaged_cv) rides in the stream's main pair: the written objects and the stream are printed once
+    comps = past_end_stage(ctx, bp, case)
+    dcomps, dinfo = fault_stage(ctx, bp, case, full_snaps, full_ok, rt_flags, ndamage)
+    comps += dcomps
+    model = (f"(let ms := [{'; '.join(w[3] for w in case.written)}] in let s := {lib.coq_bytes(stream)} in "
+             f"CL [cv_bytes_res (dump_stream sc{case.si} ms); CL (loads_trace sc{case.si} {nat_list(mi(c) for c in readers)} s); "
+             f"CL [{'; '.join(c[0] for c in comps)}]])")
+    expected = f"(CL [{cb(stream)}; CL {trace_cv(events)}; {cl([c[1] for c in comps])}])"
     pairs.append((model, expected))
-    meta.append((case, None))
+    meta.append((case, None, {"damaged": dinfo}))
     # ---------------- every cut point
     n = len(stream)
     if n <= exhaustive_budget:
@@ -275,9 +302,25 @@ def check_case(ctx, bp, case, pairs, meta, exhaustive_budget, sampled_cuts):
         ks_coq = nat_list(ks)
         ctx.count("streams_sampled_cuts")
     summaries = []
+    ref_sums, ref_kns, ref_rests, ref_cuts_ok = [], [], [], gend != "overwide"
+    gpay = [p for p, _r in gfr]
     for k in ks:
         evs, after = read_run(bp, s, readers, stream[:k])
         oks = [ev for ev in evs if ev[0] == "ok"]
+        # gap tie (1) at this cut: google's reading of the cut stream; betterproto's positions against it
+        cfr, cend = g_frames(stream[:k])
+        if cend == "overwide":
+            ref_cuts_ok = False
+        else:
+            ref_sums.append(cl([cz(len(cfr)), lib.cbool([p for p, _r in cfr] == gpay[:len(cfr)]), cz(len(cfr)) if cend is None else ce(cend)]))
+            ref_kns.append(f"({k}%nat, {len(oks)}%nat)")
+            ref_rests.append(cl([cz(ev[2]) for ev in oks]))
+            for i, ev in enumerate(oks):
+                if i >= len(cfr) or cfr[i][1] != ev[2]:
+                    ctx.fail("oracle", f"stream cut at {k}: load #{i} returned leaving {ev[2]} bytes where google.protobuf's length-prefixed reading "
+                             + ("finds no complete frame" if i >= len(cfr) else f"leaves {cfr[i][1]}"), input=case.describe(cut=k))
+                    break
+            ctx.count("ref:cut_streams_read_by_reference")
         same = all(i < len(full_snaps) and ev[1] == full_snaps[i] for i, ev in enumerate(oks))
         err = bool(evs) and evs[-1][0] == "err"
         summaries.append(cl([cz(len(oks)), lib.cbool(same), cl([cz(ev[2]) for ev in oks]), lib.cbool(err)]))
@@ -298,6 +341,429 @@ def check_case(ctx, bp, case, pairs, meta, exhaustive_budget, sampled_cuts):
             ctx.fail("oracle", f"stream cut at {k}: {whole} complete frames but {len(oks)} loads returned", input=case.describe(cut=k))
     pairs.append((f"(all_cuts sc{case.si} {nat_list(mi(c) for c in readers)} {lib.coq_bytes(stream)} {ks_coq})", cl(summaries)))
     meta.append((case, ks))
+    if ref_cuts_ok:
+        ctx.c10_ref[0].append((f"(let s := {lib.coq_bytes(stream)} in CL [ref_cuts s {ks_coq}; ref_positions_cuts s [{'; '.join(ref_kns)}]])",
+                               cl([cl(ref_sums), cl(ref_rests)])))
+        ctx.c10_ref[1].append((dict(case.describe(), cuts=list(ks)[:400]), "every cut"))
+    else:
+        ctx.count("ref:cuts_skipped_overwide_prefix")
+
+
+
+# --------------------------------------------------------------------------------------------------
+# gap tie: the specification-side functions of the gap-closing theorems against the reference and the implementation
+#   ref_frame / ref_frames  (Model/C10GapDefs.v)  <->  google.protobuf's reading of the same bytes, betterproto's stream positions
+#   whole_frames            (Model/C10Rt.v)       <->  the number of written frames that end at or before byte k
+#   c14u_value_ok / normu_obj (Model/C14UDef.v)   <->  what load returned for messages carrying unknown fields at any depth
+#   and the oracles C10_loads_past_end, C10_stream_fault_roundtrip / _any_reader, C10_loads_fault on the implementation
+# --------------------------------------------------------------------------------------------------
+_REF_EMPTY = {}
+
+
+def ref_empty_class(ctx):
+    """a google.protobuf message class without fields: every record is an unknown field to it"""
+    if "cls" not in _REF_EMPTY:
+        from google.protobuf import descriptor_pb2, descriptor_pool, message_factory
+        fdp = descriptor_pb2.FileDescriptorProto(name=f"c10gap_{ctx.seed}.proto", package="c10gap", syntax="proto3")
+        fdp.message_type.add(name="E")
+        pool = descriptor_pool.DescriptorPool()
+        pool.Add(fdp)
+        _REF_EMPTY["cls"] = message_factory.GetMessageClass(pool.FindMessageTypeByName("c10gap.E"))
+    return _REF_EMPTY["cls"]
+
+
+def g_frames(data):
+    """google.protobuf's reading of a length-prefixed stream without a message class: the loop of proto.parse_length_prefixed
+    (size = decoder._DecodeVarint(stream); stream.read(size)) run until it ends. Returns (frames, end) with frames =
+    [(payload, unread bytes after it)] and end = None (clean end of input: _DecodeVarint returned None) | 'EEof' (the input ends
+    inside a prefix or a payload) | 'ETooLong' (more than ten prefix bytes) | 'overwide' (a ten-byte prefix whose tenth byte is
+    above 1: the reference masks the value to 64 bits, betterproto's load_varint - and ref_frame, which is written over it -
+    keeps the bits from 2**64 on, so the two readings differ there BY DEFINITION; no writer produces such a prefix; the reading
+    stops and the stream is compared up to here only - see overwide_witness)."""
+    from google.protobuf.internal import decoder
+    st = io.BytesIO(data)
+    frames = []
+    while True:
+        pos = st.tell()
+        try:
+            size = decoder._DecodeVarint(st)
+        except decoder._DecodeError:
+            return frames, "ETooLong"
+        except ValueError:
+            return frames, "EEof"
+        if size is None:
+            return frames, None
+        if st.tell() - pos == 10 and data[pos + 9] > 1:
+            return frames, "overwide"
+        try:
+            payload = st.read(size)
+        except OverflowError:
+            return frames, "EEof"
+        if len(payload) < size:
+            return frames, "EEof"
+        frames.append((payload, len(data) - st.tell()))
+
+
+def g_parse_lp(ctx, data):
+    """proto.parse_length_prefixed itself, with the field-less class, until it returns None or raises: [(unread, reserialised)]"""
+    from google.protobuf import proto
+    RefE = ref_empty_class(ctx)
+    st = io.BytesIO(data)
+    out = []
+    while True:
+        try:
+            msg = proto.parse_length_prefixed(RefE, st)
+        except Exception:  # noqa
+            return out
+        if msg is None:
+            return out
+        out.append((len(data) - st.tell(), msg.SerializeToString()))
+        if len(out) > len(data) + 1:
+            return out
+
+
+def ref_pair(ctx, data, events, what, describe):
+    """one correspondence pair (schema-free: evaluated in a separate, cheap coq_compare) for the bytes `data`: ref_trace /
+    ref_frames_cv against google's reading, ref_positions against the positions betterproto's loads left (events of read_run on
+    the same bytes). Returns (frames, end) of google's reading."""
+    frames, end = g_frames(data)
+    ctx.count("ref:streams_read_by_reference")
+    ctx.count("ref:streams_" + what)
+    ctx.count("ref:frames_read_by_reference", len(frames))
+    ctx.count("ref:end_" + ("clean" if end is None else end))
+    # the harness' loop against google's own function (positions of the frames upb can parse)
+    lp = g_parse_lp(ctx, data)
+    for i, (rem, ser) in enumerate(lp):
+        if i >= len(frames):
+            if end != "overwide":
+                ctx.fail("corr", f"proto.parse_length_prefixed returns a frame #{i} where the _DecodeVarint / read(size) loop of the harness ends ({end})",
+                         input={"stream_hex": data.hex(), "what": what})
+            break
+        if rem != frames[i][1]:
+            ctx.fail("corr", f"proto.parse_length_prefixed leaves {rem} bytes after frame #{i}, the _DecodeVarint / read(size) loop {frames[i][1]}",
+                     input={"stream_hex": data.hex(), "what": what})
+            break
+        ctx.count("ref:frames_confirmed_by_parse_length_prefixed")
+        if ser == frames[i][0]:
+            ctx.count("ref:frames_reserialised_identically_by_reference")
+    items = [cl([cb(p), cz(r)]) for p, r in frames]
+    if end != "overwide":
+        items.append(ce("EEof" if end is None else end))   # a read at the clean end: google returns None, ref_frame [] = Err EEof
+    n = len(items)
+    whole = "CN" if end == "overwide" else (cl([cb(p) for p, _ in frames]) if end is None else ce(end))
+    oks = [ev for ev in events if ev[0] == "ok"]
+    model = (f"(let s := {lib.coq_bytes(data)} in CL [CL (ref_trace {n}%nat s); "
+             f"{'CN' if end == 'overwide' else 'ref_frames_cv s'}; CL (ref_positions {len(oks)}%nat s)])")
+    expected = cl([cl(items), whole, cl([cz(ev[2]) for ev in oks])])
+    ctx.c10_ref[0].append((model, expected))
+    ctx.c10_ref[1].append((describe, what))
+    return frames, end
+
+
+def ref_vs_load(ctx, s, readers, data, events, frames, end, describe):
+    """C10_load_ref_frame on the implementation, both directions: a load returns (m, position) exactly when the reference reader
+    splits off (payload, position) and Cls().parse(payload) returns m"""
+    for i, ev in enumerate(events):
+        cls = s.classes[readers[i]].py
+        if ev[0] == "ok":
+            if i >= len(frames):
+                if end != "overwide":
+                    ctx.fail("oracle", f"load #{i} returned a message where google.protobuf's length-prefixed reading finds no complete frame ({end})",
+                             input=describe())
+                return
+            if frames[i][1] != ev[2]:
+                ctx.fail("oracle", f"load #{i} left {ev[2]} bytes unread, google.protobuf's length-prefixed reading leaves {frames[i][1]}", input=describe())
+                return
+            try:
+                want = snapshot(s, cls().parse(frames[i][0]))
+            except Exception as e:  # noqa
+                ctx.fail("oracle", f"load #{i} returned although Cls().parse(payload the reference reader splits off) raises {type(e).__name__}", input=describe())
+                return
+            if want is not None and want != ev[1]:
+                ctx.fail("oracle", f"load #{i} returned an object different from Cls().parse(payload the reference reader splits off)", input=describe())
+                return
+            ctx.count("ref:load_is_reference_frame_then_parse")
+        else:
+            if i < len(frames):
+                try:
+                    cls().parse(frames[i][0])
+                except Exception:  # noqa
+                    ctx.count("ref:load_raised_as_parse_of_reference_payload_does")
+                else:
+                    ctx.fail("oracle", f"load #{i} raised {type(ev[1]).__name__} although the reference reader finds a complete frame and "
+                             "Cls().parse(payload) returns", input=describe())
+            else:
+                ctx.count("ref:load_raised_where_reference_reading_fails")
+            return
+
+
+def overwide_witness(ctx, bp, s):
+    """the one place where ref_frame is NOT google's reading, recorded (not alarmed) on every run: a ten-byte prefix whose tenth
+    byte carries bits from 2**64 on. google masks to 64 bits (size 0 here: an empty message, ten bytes consumed); betterproto
+    and ref_frame keep the bits (size 2**64: the load raises)."""
+    data = b"\x80" * 9 + b"\x02" + b"\x00"
+    try:
+        lp = g_parse_lp(ctx, data)
+        try:
+            s.classes[0].py().load(io.BytesIO(data), bp.SIZE_DELIMITED)
+            mine = "returned"
+        except Exception as e:  # noqa
+            mine = "raised " + type(e).__name__
+        ctx.count("ref:overwide_prefix_witness_reference_frames", len(lp))
+        ctx.notes.append(f"over-wide ten-byte length prefix {data.hex()}: proto.parse_length_prefixed reads {len(lp)} frame(s) "
+                         f"(value masked to 64 bits), betterproto's load {mine}; ref_frame follows betterproto (Err); streams with such a "
+                         "prefix are compared up to it only")
+    except Exception as e:  # noqa
+        ctx.notes.append(f"over-wide prefix witness crashed: {e!r}")
+
+
+def damage(rng, stream, ends):
+    """a fault other than a cut, from byte k on: (kind, k, damaged stream); the first k bytes are those of `stream`"""
+    n = len(stream)
+    near = sorted({0, n} | set(ends) | {e - 1 for e in ends if e > 0} | {e + 1 for e in ends if e < n})
+    k = rng.choice(near) if rng.random() < 0.5 else rng.randint(0, n)
+    fill = rng.choice(["random", "random", "zeros", "ones"])
+
+    def rb(m):
+        if fill == "zeros":
+            return bytes(m)
+        if fill == "ones":
+            return b"\xff" * m
+        return bytes(rng.getrandbits(8) for _ in range(m))
+    kind = rng.choice(["overwrite", "insert", "delete", "garbage-after"])
+    if kind == "overwrite" and k < n:
+        return kind + ":" + fill, k, stream[:k] + rb(n - k)
+    if kind == "delete" and k < n:
+        return kind, k, stream[:k] + stream[k + rng.randint(1, 4):]
+    if kind == "insert":
+        return kind + ":" + fill, k, stream[:k] + rb(rng.randint(1, 4)) + stream[k:]
+    return "garbage-after:" + fill, n, stream + rb(rng.randint(1, 6))
+
+
+def fault_stage(ctx, bp, case, full_snaps, full_ok, rt_flags, ndamage):
+    """C10_loads_fault (any stream) and C10_stream_fault_any_reader / _roundtrip (written streams) on the implementation, and the
+    model (loads_trace, whole_frames, ref_frame) on the damaged bytes"""
+    s, stream, readers = case.s, case.stream, case.readers
+    mi = lambda c: msggen.NBUILTIN + c  # noqa
+    ends, pos = [], 0
+    for f in case.frames:
+        pos += len(f)
+        ends.append(pos)
+    written_ok = bool(case.written) and len(case.written) == len(case.frames)
+    dks, ds2, dsum, dwhole = [], [], [], []
+    for _ in range(ndamage):
+        kind, k, s2 = damage(ctx.rng, stream, ends)
+        desc = lambda: dict(case.describe(), damage=kind, agree_upto=k, damaged_stream_hex=s2.hex())  # noqa
+        evs_k, _ = read_run(bp, s, readers, stream[:k])
+        evs2, _ = read_run(bp, s, readers, s2)
+        if any(ev[0] == "ok" and ev[1] is None for ev in evs_k + evs2):
+            ctx.count("fault:unmodellable_result")
+            continue
+        ctx.cov["evaluations"] += 1
+        ctx.count("fault:damaged_streams")
+        ctx.count("fault:" + kind)
+        lk = [ev for ev in evs_k if ev[0] == "ok"]
+        ok2 = [ev for ev in evs2 if ev[0] == "ok"]
+        # C10_loads_fault: every load completing inside the common k bytes returns the same message, at the same offset
+        for i, ev in enumerate(lk):
+            if i >= len(ok2) or ok2[i][1] != ev[1] or (len(s2) - ok2[i][2]) != (k - ev[2]):
+                ctx.fail("oracle", f"two streams agreeing on their first {k} bytes ({kind}): load #{i} completes inside them on the one and "
+                         "returns a different message / position (or raises) on the other", input=desc())
+                break
+            if i >= len(full_snaps) or full_snaps[i] != ev[1]:
+                ctx.fail("oracle", f"stream cut at {k}: load #{i} returns a message different from the uncut stream's", input=desc())
+                break
+            ctx.count("fault:loads_inside_common_prefix_same")
+        whole = None
+        if written_ok:
+            whole = sum(1 for e in ends if e <= k)
+            if full_ok:
+                need = min(whole, len(readers))
+                if len(ok2) < need:
+                    ctx.fail("oracle", f"stream damaged from byte {k} on ({kind}): {whole} frames lie wholly before it but only {len(ok2)} loads returned",
+                             input=desc())
+                elif [ev[1] for ev in ok2[:need]] != full_snaps[:need]:
+                    ctx.fail("oracle", f"stream damaged from byte {k} on ({kind}): a message whose frame lies wholly before the damage came back different",
+                             input=desc())
+                else:
+                    ctx.count("fault:whole_frames_returned_intact", need)
+                    for i in range(need):
+                        if rt_flags.get(i):
+                            try:
+                                m, payload = case.written[i][1], case.written[i][2]
+                                if not (ok2[i][3] == m and bytes(ok2[i][3]) == payload):
+                                    ctx.fail("oracle", f"stream damaged from byte {k} on ({kind}): message #{i} (frame before the damage) is not == the written one",
+                                             input=desc())
+                                ctx.count("fault:eq_written_checked")
+                            except Exception as e:  # noqa
+                                ctx.fail("oracle", f"comparing message #{i} of a damaged stream raised {type(e).__name__}: {e}", input=desc())
+                    if len(ok2) > need:
+                        ctx.count("fault:more_messages_after_the_damage")
+        frames, end = ref_pair(ctx, s2, evs2, "damaged", desc())
+        ref_vs_load(ctx, s, readers, s2, evs2, frames, end, desc)
+        same = all(i < len(full_snaps) and ev[1] == full_snaps[i] for i, ev in enumerate(ok2))
+        err = bool(evs2) and evs2[-1][0] == "err"
+        dsum.append(cl([cz(len(ok2)), lib.cbool(same), cl([cz(ev[2]) for ev in ok2]), lib.cbool(err)]))
+        dks.append(k)
+        ds2.append(s2)
+        dwhole.append(whole)
+    # the model on the damaged bytes, as components of the stream's main pair (`ms` = the written objects, `s` = the stream there)
+    wf_model = f"(whole_frames_cv sc{case.si} ms {nat_list(dks)})" if written_ok else "CN"
+    wf_expected = cl([cz(w) for w in dwhole]) if written_ok else "CN"
+    dm_model = f"(damaged_cv sc{case.si} {nat_list(mi(c) for c in readers)} s [{'; '.join(lib.coq_bytes(x) for x in ds2)}])"
+    return [(wf_model, wf_expected), (dm_model, cl(dsum))], [{"agree_upto": k, "damaged_stream_hex": x.hex()} for k, x in zip(dks, ds2)]
+
+
+def past_end_stage(ctx, bp, case):
+    """C10_loads_past_end / C10_load_at_end: after the last message one more load raises EOFError, returns nothing, moves nothing"""
+    s, stream = case.s, case.stream
+    nw = len(case.written)
+    readers = list(case.readers[:nw])
+    if len(readers) < nw:
+        return []
+    mi = lambda c: msggen.NBUILTIN + c  # noqa
+    st = io.BytesIO(stream)
+    for ci in readers:
+        try:
+            s.classes[ci].py().load(st, bp.SIZE_DELIMITED)
+        except Exception:  # noqa
+            ctx.count("past_end:skipped_a_reader_raises")   # parse_each fails: not the theorem's hypothesis
+            return []
+    if st.tell() != len(stream):
+        return []   # reported by the frame-exactness oracle
+    fieldless = [i for i, c in enumerate(s.classes) if not c.fields]
+    extra = [ctx.rng.randrange(len(s.classes))] + ([ctx.rng.choice(fieldless)] if fieldless else [])
+    first = None
+    for c in extra:
+        try:
+            o = s.classes[c].py().load(st, bp.SIZE_DELIMITED)
+            out = ("returned", o)
+            ctx.fail("oracle", f"a load after the last message of the stream RETURNED a {type(o).__name__} ({o!r:.200}) instead of raising EOFError",
+                     input=dict(case.describe(), extra_reader=s.classes[c].name))
+        except EOFError as e:
+            out = ("raised", e)
+            ctx.count("past_end:raised_EOFError")
+        except Exception as e:  # noqa
+            out = ("raised", e)
+            ctx.fail("oracle", f"a load after the last message of the stream raised {type(e).__name__} ({e}) instead of EOFError",
+                     input=dict(case.describe(), extra_reader=s.classes[c].name))
+        if first is None:
+            first = out
+        if st.tell() != len(stream):
+            ctx.fail("oracle", "a load after the last message moved the stream position", input=dict(case.describe(), extra_reader=s.classes[c].name))
+            break
+    ctx.count("past_end:streams")
+    ctx.count("past_end:streams_of_%d" % min(nw, 3) + ("+" if nw >= 3 else ""))
+    expected = cl([cz(nw), ce(lib.exc_kind(first[1]))]) if first[0] == "raised" else cl([cz(nw + 1), cz(0)])
+    return [(f"(loads_end sc{case.si} {nat_list(mi(c) for c in readers + [extra[0]])} s)", expected)]
+
+
+def unknown_profile(m):
+    """(carries unknown bytes at the top level, carries unknown bytes inside a nested message)"""
+    import betterproto as bp
+
+    def nested(x):
+        for f in dataclasses.fields(x):
+            raw = object.__getattribute__(x, f.name)
+            kids = [raw] if isinstance(raw, bp.Message) else list(raw) if isinstance(raw, list) else list(raw.values()) if isinstance(raw, dict) else []
+            for y in kids:
+                if isinstance(y, bp.Message) and (object.__getattribute__(y, "_unknown_fields") or nested(y)):
+                    return True
+        return False
+    return bool(object.__getattribute__(m, "_unknown_fields")), nested(m)
+
+
+def unknown_walk(a, b, path=""):
+    """a = written, b = returned: (path, unknown bytes in a, in b) for every nested message present at the same place in both"""
+    import betterproto as bp
+    out = []
+    for f in dataclasses.fields(a):
+        ra, rb = object.__getattribute__(a, f.name), object.__getattribute__(b, f.name)
+        if isinstance(ra, bp.Message) and isinstance(rb, bp.Message):
+            kids = [(f.name, ra, rb)]
+        elif isinstance(ra, list) and isinstance(rb, list):
+            kids = [(f"{f.name}[{i}]", x, y) for i, (x, y) in enumerate(zip(ra, rb))]
+        elif isinstance(ra, dict) and isinstance(rb, dict):
+            kids = [(f"{f.name}[{k!r}]", ra[k], rb[k]) for k in ra if k == k and k in rb]
+        else:
+            kids = []
+        for name, x, y in kids:
+            # y with its flag down is a default the returned object created lazily (== reads every attribute): x was not on the wire
+            if isinstance(x, bp.Message) and isinstance(y, bp.Message) and type(x) is type(y) and object.__getattribute__(y, "_serialized_on_wire"):
+                out.append((path + "." + name, bytes(object.__getattribute__(x, "_unknown_fields")), bytes(object.__getattribute__(y, "_unknown_fields"))))
+                out.extend(unknown_walk(x, y, path + "." + name))
+    return out
+
+
+def unknown_stage(ctx, bp, case, i, got_obj, got_snap, pairs, meta, rt_ok):
+    """C10_stream_roundtrip_unknown for written message #i of a stream read with the writer's classes: the message carries unknown
+    bytes (top level and / or inside nested messages) and came back as got_obj. The oracle on the implementation is applied when
+    C01's statement holds of the message (rt_ok: Cls().parse(bytes(m)) == m - an out-of-range int or a NaN makes it false, as for
+    the == oracle above); the model side (c14u_value_ok && msg_small -> the load returned normu_obj m) always."""
+    ci, m, payload, lit = case.written[i]
+    top, nested = unknown_profile(m)
+    if not (top or nested):
+        return
+    ctx.count("unk:messages_with_unknown_fields")
+    if nested:
+        ctx.count("unk:messages_with_unknown_fields_in_nested_messages")
+    desc = lambda: dict(case.describe(), message_index=i)  # noqa
+    try:
+        if not rt_ok:
+            ctx.count("unk:oracle_skipped_c01_roundtrip_not_eq")
+            raise StopIteration
+        if bytes(got_obj) != payload:
+            ctx.fail("oracle", f"message #{i} carries unknown fields; the message load returned re-encodes to different bytes", input=desc())
+        if bytes(object.__getattribute__(got_obj, "_unknown_fields")) != bytes(object.__getattribute__(m, "_unknown_fields")):
+            ctx.fail("oracle", f"message #{i}: the top-level unknown bytes did not come back intact through the delimited stream", input=desc())
+        for g in range(case.s.classes[ci].ngroups):
+            if bp.which_one_of(got_obj, f"g{g}")[0] != bp.which_one_of(m, f"g{g}")[0]:
+                ctx.fail("oracle", f"message #{i} (with unknown fields): which_one_of(g{g}) differs after the delimited stream", input=desc())
+        walked = unknown_walk(m, got_obj)
+        for path, ua, ub in walked:
+            if ua != ub:
+                ctx.fail("oracle", f"message #{i}: the unknown bytes of the nested message at {path} did not come back intact through the delimited "
+                         f"stream (written {ua.hex()[:80]}, returned {ub.hex()[:80]})", input=desc())
+                break
+        ctx.count("unk:nested_unknown_byte_strings_returned_intact", sum(1 for _p, ua, _ub in walked if ua))
+    except StopIteration:
+        pass
+    except Exception as e:  # noqa
+        ctx.fail("oracle", f"comparing message #{i} (unknown fields) with the returned one raised {type(e).__name__}: {e}", input=desc())
+    sc = f"sc{case.si}"
+    pairs.append((f"(cbool (unk_hyp {sc} {lit}))", cz(1)))
+    meta.append((case, {"message_index": i, "nested": nested}, "HYP"))
+    pairs.append((f"(cbool (unk_rt {sc} {lit} {got_snap}))", cz(1)))
+    meta.append((case, {"message_index": i}, "message with unknown fields: c14u_value_ok && msg_small -> load returned normu_obj (C10_stream_roundtrip_unknown)"))
+
+
+def nested_user_messages(s, m):
+    """[(user class index, message)] of the messages nested in m (any depth)"""
+    import betterproto as bp
+    out = []
+    for f in dataclasses.fields(m):
+        raw = object.__getattribute__(m, f.name)
+        kids = [raw] if isinstance(raw, bp.Message) else list(raw) if isinstance(raw, list) else list(raw.values()) if isinstance(raw, dict) else []
+        for x in kids:
+            if isinstance(x, bp.Message) and type(x) in s.index_of and s.index_of[type(x)] >= msggen.NBUILTIN:
+                out.append((s.index_of[type(x)] - msggen.NBUILTIN, x))
+                out.extend(nested_user_messages(s, x))
+    return out
+
+
+def add_nested_unknown(ctx, s, m, rng):
+    """unknown records inside the nested messages of m, the way a decoder of an older schema holds them (parse: flag up) or as raw
+    state (flag untouched); returns the number of nested messages that got some"""
+    n = 0
+    for cj, x in nested_user_messages(s, m):
+        if rng.random() < 0.6:
+            unk = msggen.gen_unknown(rng, {f.number for f in s.classes[cj].fields})
+            if rng.random() < 0.7:
+                x.parse(unk)
+            else:
+                object.__setattr__(x, "_unknown_fields", bytes(object.__getattribute__(x, "_unknown_fields")) + unk)
+            n += 1
+    return n
 
 
 # --------------------------------------------------------------------------------------------------
@@ -322,7 +788,7 @@ def gen_stream(ctx, bp, si, s, old_of, rng):
     nmsg = rng.choice([0, 1, 2, 2, 3, 3, 4, 5, 6])
     nuser = len(s.classes)
     written, frames = [], []
-    force = rng.choice(["empty", "unknown", "nested", None, None])
+    force = rng.choice(["empty", "unknown", "nested", "nested_unknown", "nested_unknown", None, None])
     for j in range(nmsg):
         ci = rng.randrange(nuser)
         try:
@@ -330,6 +796,15 @@ def gen_stream(ctx, bp, si, s, old_of, rng):
                 m = s.classes[ci].py()
             else:
                 m = msggen.gen_message(s, ci, rng, in_range=rng.random() < 0.93, p_set=rng.choice([0.0, 0.3, 0.6]) if rng.random() < 0.6 else None)
+                if force == "nested_unknown" and j <= 2:
+                    # gap tie (3): unknown records INSIDE nested messages (redraw a few times until the message has nested ones)
+                    for _try in range(6):
+                        if nested_user_messages(s, m):
+                            break
+                        ci = rng.randrange(nuser)
+                        m = msggen.gen_message(s, ci, rng, in_range=True, p_set=rng.choice([0.6, 0.9]))
+                    if add_nested_unknown(ctx, s, m, rng):
+                        ctx.count("frame_with_unknown_fields_forced_into_nested_messages")
                 if force == "unknown" and j <= 1:
                     m.parse(msggen.gen_unknown(rng, {f.number for f in s.classes[ci].fields}))
                     if rng.random() < 0.5:
@@ -396,6 +871,8 @@ def gen_stream(ctx, bp, si, s, old_of, rng):
         if msggen.depth_of(m) > 1:
             ctx.count("frame_nested")
     mode = rng.choice(["same", "same", "same", "older", "older", "other"])
+    if force == "nested_unknown" and rng.random() < 0.7:
+        mode = "same"
     if mode == "same":
         readers = [w[0] for w in written]
     elif mode == "older":
@@ -519,8 +996,13 @@ def check_fault_case(ctx, bp, case, pairs, meta):
     if "ok" in after:
         ctx.count("fault_load_after_exception_returned")  # position after an exception is unspecified; recorded only
     mi = lambda c: msggen.NBUILTIN + c  # noqa
-    pairs.append((f"(CL (loads_trace sc{case.si} {nat_list(mi(c) for c in readers)} {lib.coq_bytes(stream)}))", f"(CL {trace_cv(events)})"))
-    meta.append((case, None))
+    # gap tie: the reference reader on the fault stream; C10_load_ref_frame and C10_loads_fault on the implementation
+    gfr, gend = ref_pair(ctx, stream, events, "fault", case.describe())
+    ref_vs_load(ctx, s, readers, stream, events, gfr, gend, case.describe)
+    dcomps, dinfo = fault_stage(ctx, bp, case, [ev[1] for ev in events if ev[0] == "ok"], False, {}, 1)
+    pairs.append((f"(let s := {lib.coq_bytes(stream)} in CL [CL (loads_trace sc{case.si} {nat_list(mi(c) for c in readers)} s); {dcomps[1][0]}])",
+                  f"(CL [CL {trace_cv(events)}; {dcomps[1][1]}])"))
+    meta.append((case, None, {"damaged": dinfo}))
 
 
 # --------------------------------------------------------------------------------------------------
@@ -594,6 +1076,8 @@ def failed_dump_witnesses(ctx, bp, s):
 
 def run(ctx):
     import betterproto as bp
+    import sys, time
+    tstart = time.time()
     rng = ctx.rng
     thorough = ctx.thorough
     schemas, olds = [], []
@@ -602,7 +1086,9 @@ def run(ctx):
         schemas.append(s)
         olds.append(old_of)
     pairs, meta = [], []
+    ctx.c10_ref = ([], [])
     failed_dump_witnesses(ctx, bp, schemas[0])
+    overwide_witness(ctx, bp, schemas[0])
     budget = 220 if not thorough else 600
     n_streams = 22 if not thorough else 70
     cases = []
@@ -619,19 +1105,82 @@ def run(ctx):
         schemas.append(c.s)
     for case in corpus + cases:
         try:
-            check_case(ctx, bp, case, pairs, meta, budget, 40)
+            check_case(ctx, bp, case, pairs, meta, budget, 40, ndamage=2 if not thorough else 4)
         except Exception as e:  # noqa
             ctx.fail("oracle", f"checking a stream raised {type(e).__name__}: {e}", input=case.describe())
     for case in cases[:6]:
         if case.frames:
             ctx.sample({"mode": case.label, "readers": [case.s.classes[c].name for c in case.readers], "stream": case.stream.hex()[:160]})
     prelude = "\n".join(f"Definition sc{i} : schema := {s.coq()}." for i, s in enumerate(schemas))
-    bad = lib.coq_compare(ctx, "c10", IMPORTS, pairs, chunk=24, prelude=prelude)
-    for i in bad[:20]:
+    # the schema hypothesis of the round-trip theorems (C10_stream_roundtrip_unknown among them) on every schema used
+    for i in range(len(schemas)):
+        pairs.append((f"(cbool (c01_schema_ok sc{i}))", cz(1)))
+        meta.append((None, {"schema_index": i}, "a generated schema does not satisfy c01_schema_ok: the round-trip theorems would be vacuous on it"))
+    import sys, time
+    t0 = time.time()
+    tnote = f"python stage {t0 - tstart:.1f}s; {len(pairs)} pairs, {sum(len(a) + len(b) for a, b in pairs)} chars"
+    # the schema-free pairs (reference reader) have their own case files without the schema prelude; evaluated concurrently
+    import threading, types
+    rpairs, rmeta = ctx.c10_ref
+    side = types.SimpleNamespace(work=ctx.work, cov={"traces_validated_against_impl": 0}, out=None, err=None)
+
+    def ref_compare():
+        try:
+            side.out = lib.coq_compare(side, "c10ref", "Model.C10GapCv", rpairs, chunk=max(40, len(rpairs) // 12 + 1))
+        except BaseException as e:  # noqa
+            side.err = e
+    th = threading.Thread(target=ref_compare)
+    th.start()
+    try:
+        bad = lib.coq_compare(ctx, "c10", IMPORTS, pairs, chunk=24, prelude=prelude)
+    finally:
+        th.join()
+    if side.err is not None:
+        raise side.err
+    ctx.cov["traces_validated_against_impl"] += side.cov["traces_validated_against_impl"]
+    tnote += f"; coq_compare {time.time() - t0:.1f}s"
+    t0 = time.time()
+    hyp_false = {i for i in bad if len(meta[i]) == 3 and meta[i][2] == "HYP"}
+    nhyp = sum(1 for mt in meta if len(mt) == 3 and mt[2] == "HYP")
+    ctx.count("unk:c14u_value_ok_and_small_true", nhyp - len(hyp_false))
+    ctx.count("unk:c14u_value_ok_and_small_true_with_nested_unknown",
+              sum(1 for i, mt in enumerate(meta) if len(mt) == 3 and mt[2] == "HYP" and mt[1]["nested"] and i not in hyp_false))
+    ctx.count("unk:hypothesis_false", len(hyp_false))
+    if nhyp and nhyp == len(hyp_false):
+        ctx.notes.append("no generated message with unknown fields satisfied c14u_value_ok && msg_small in this run")
+    reported = 0
+    for i in bad:
+        if i in hyp_false:
+            continue
+        reported += 1
+        if reported > 20:
+            break
+        if len(meta[i]) == 3 and isinstance(meta[i][2], dict):
+            case = meta[i][0]
+            ctx.fail("corr", "model (dump_stream / loads on the whole stream; loads_end with one load more; whole_frames and loads on the damaged "
+                     "copies) and implementation disagree", input=dict(case.describe(), model_expr=pairs[i][0][:3000], implementation=pairs[i][1][:3000], **meta[i][2]))
+            continue
+        if len(meta[i]) == 3:
+            case, extra, tag = meta[i]
+            inp = dict(case.describe() if case is not None else {}, model_expr=pairs[i][0][:3000], implementation=pairs[i][1][:3000])
+            if isinstance(extra, dict):
+                inp.update(extra)
+            elif extra is not None:
+                inp["cuts"] = list(extra)[:400]
+            ctx.fail("corr", "gap tie, " + tag + ": the specification-side function and the implementation / reference disagree", input=inp)
+            continue
         case, ks = meta[i]
         ctx.fail("corr", "model (dump_stream / loads on the whole stream)" if ks is None else "model (loads on every cut of the stream)"
                  + " and implementation disagree", input=dict(case.describe(), model_expr=pairs[i][0][:3000], implementation=pairs[i][1][:3000]))
-    ctx.cov["disagreements_checked"] = len(pairs)
+    rbad = side.out
+    ctx.notes.append(f"timing: {tnote} (concurrently: {len(rpairs)} schema-free reference pairs, {sum(len(a) + len(b) for a, b in rpairs)} chars)")
+    ctx.count("ref:pairs_evaluated_in_coq", len(rpairs))
+    for i in rbad[:10]:
+        inp, what = rmeta[i]
+        ctx.fail("corr", f"gap tie ({what}): ref_frame / ref_frames (Model/C10GapDefs.v) disagree with google.protobuf's length-prefixed reading of the "
+                 "same bytes (first two components) or with the positions betterproto's loads left (last component)",
+                 input=dict(inp, model_expr=rpairs[i][0][:3000], reference_and_implementation=rpairs[i][1][:3000]))
+    ctx.cov["disagreements_checked"] = len(pairs) + len(rpairs)
     t3(ctx, bp, rng)
     for s in schemas:
         s.dispose()
